@@ -2284,6 +2284,11 @@ macro_rules! value_dy_math_impl {
                     if a.type_id() != f64::TYPE_ID || b.type_id() != f64::TYPE_ID {
                         return None;
                     }
+                    // Rows of several numbers are ordered by their first difference,
+                    // which the operation can remove
+                    if a.rank() > 1 || b.rank() > 1 {
+                        return None;
+                    }
                     let a_flags = a.meta.take_sorted_flags();
                     Some(if b.shape == [] {
                         a_flags
@@ -2294,6 +2299,14 @@ macro_rules! value_dy_math_impl {
                 handle_pre: |a: Option<ArrayFlags>, b, val| {
                     if let Some(flags) = a.or(b) {
                         val.meta.or_sorted_flags(flags);
+                    }
+                    // ∞ + ¯∞ is NaN, which is ordered after every other number
+                    if val.meta.is_sorted_up() || val.meta.is_sorted_down() {
+                        if let Value::Num(arr) = val {
+                            if arr.data.iter().any(|&n| n.is_nan()) {
+                                arr.meta.take_sorted_flags();
+                            }
+                        }
                     }
                 },
             }
